@@ -25,6 +25,9 @@ type Cfg struct {
 	Window        int           // receive window in bytes (0 = unlimited)
 	RstDiscards   bool          // an RST discards data queued at the receiver
 	ParkDeadlines bool          // SetDeadline calls are scheduling points too
+	// EOFWithData: the read that takes the last byte before the peer's FIN reports io.EOF along with
+	// the bytes (io.Reader allows it; crypto/tls does it when close_notify sits behind the last record)
+	EOFWithData bool
 }
 
 type Net struct {
@@ -330,6 +333,10 @@ func (e *End) tryReadLocked(p []byte) (int, error, bool) {
 		e.rbuf = e.rbuf[n:]
 		if len(e.rbuf) == 0 {
 			e.rbuf = nil
+			if e.n.Cfg.EOFWithData && e.finRcvd && !e.rst {
+				e.n.S.Stats["fault_eof_with_data"]++
+				return n, io.EOF, true
+			}
 		}
 		return n, nil, true
 	}
